@@ -24,7 +24,7 @@ def opname(op):
 class Spec:
     def __init__(self, starts, ops, depth, check_ops=(), on_state=None, on_transition=None,
                  apply=None, want_before=False, exc_is_violation=False, label='',
-                 last_level_ops=None):
+                 last_level_ops=None, by_id=False):
         self.starts = starts              # name -> (thunk, model)
         self.ops = list(ops)
         self.depth = depth
@@ -37,6 +37,7 @@ class Spec:
         self.label = label
         self.last_level_ops = last_level_ops   # ops tried from the deepest frontier (default: all)
         self.cur_ops = self.ops
+        self.by_id = by_id            # judged ops are also compared through the id-keyed accessors (C06)
 
 
 class Tr:
@@ -72,7 +73,7 @@ def step(spec, op, t, m, hist, report, acc=None):
             return t, m, 'raised-unobservable', None
     r = res.t if res.t is not None else t
     if checked:
-        d = diff(r, res.m, order=res.order, tol=tol, by_id=(res.order == ('exact', 'exact')))
+        d = diff(r, res.m, order=res.order, tol=tol, by_id=(spec.by_id and res.order == ('exact', 'exact')))
         if d is not None:
             report('model:%s' % op[0], 'after %s: %s' % (opname(op), d))
             return r, res.m, 'stop', res
